@@ -11,7 +11,6 @@ NOT_APPLICABLE = {
     'C08': 'equality of decoded samples with reference decoders is a value-level property of ~60 kLOC of arithmetic; nothing structural to decide',
     'C11': 'memory safety / termination of the whole encoder for all contents and sizes; no sound static bound on ~150 kLOC of kernels is in reach (init/config-time slices are claimed under C14, C16)',
     'C19': 'key-frame placement is modular counter arithmetic across mini-GOP boundaries and decode-from-keyframe equality is value-level; not a shape property',
-    'C26': 'numeric equality of SSE over runtime buffers; which buffers are compared depends on runtime frame type',
 }
 PENDING = 'static check designed (DESIGN.md section 5) but not implemented in this revision; not claimed'
 
